@@ -314,6 +314,22 @@ func (node *Node) load(ctx context.Context) error {
 		return err
 	}
 
+	// The mempool, which is what recognises double spends, is not stored. Put the unconfirmed txs
+	// that are still tracked back into it, or a tx that conflicts with one of them (on its own
+	// or in a block) would go unnoticed after a restart and the tracked tx be reported safe.
+	unconfirmed, err := node.txs.GetUnconfirmed(ctx)
+	if err != nil {
+		return err
+	}
+	for _, txid := range unconfirmed {
+		txState, err := internalStorage.FetchTxState(ctx, node.store, txid)
+		if err != nil {
+			continue
+		}
+		node.memPool.AddTransaction(ctx, txState.Tx, false)
+	}
+	node.txs.ReleaseUnconfirmed(ctx)
+
 	node.messageHandlers = handlers.NewTrustedMessageHandlers(ctx, node.config, node.state,
 		node.peers, node.blocks, &node.blockRefeeder, node.txs, node.reorgs, node.txTracker,
 		node.memPool, &node.unconfTxChannel, node.handlers)
